@@ -194,7 +194,8 @@ def variants(rng, model, clock, with_stop):
         (1, PRIORS[1], dict(base, cmds=[init, ["runupto", t2], ["start"]])),
         (2, PRIORS[2], dict(base, cmds=[init, ["runuptoincl", t1], ["runupto", t2], ["runuptoincl", t3], ["start"]])),
         ("random", PRIORS[3], dict(base, cmds=[init, ["start"]])),
-        ("random", PRIORS[4], dict(base, cmds=[init, ["step"], ["step"], ["runupto", t1], ["step"], ["runuptoincl", t3], ["start"]])),
+        # steps anywhere, also onto an event exactly at the replication end (a legal pause point since /repo 06e1929)
+        ("random", PRIORS[4], dict(base, cmds=[init, ["step"], ["step"], ["runupto", t2], ["step"], ["runuptoincl", t3], ["step"], ["start"]])),
     ]
     if with_stop:
         out.append((1, PRIORS[1], dict(base, cmds=[init, ["start"], ["start"]], stop_at=[rng.randint(1, 6)])))
@@ -307,8 +308,7 @@ def main(tier: str) -> int:
     nontriv = 0
     n_children = 0
     n_firings = 0
-    hist = {"hashseed_random_children": 0, "distinct_hash_probes": set(), "with_stop_from_handler": 0,
-            "children_skipped_step_onto_replication_end": 0}
+    hist = {"hashseed_random_children": 0, "distinct_hash_probes": set(), "with_stop_from_handler": 0}
     bads = {}
     groups = []
     for pi, lst in by_prog.items():
@@ -321,16 +321,7 @@ def main(tier: str) -> int:
             continue
         n_children += len(lst)
         ref = lst[0][2]
-        # C03's stated boundary: a step that lands exactly on the replication end leaves clock = end without ending
-        # the replication; neither start nor step is accepted any more.  Such a child is not comparable.
-        def stuck_at_end(job, o):
-            end = job["job"]["case"]["cmds"][0][3]
-            fin = o["parts"]["final"]
-            return (any(c[0] == "step" for c in job["job"]["case"]["cmds"]) and fin and fin[1] == "STARTED" and fin[2] == end)
-        skipped = [vi for vi, job, o in lst if stuck_at_end(job, o)]
-        hist["children_skipped_step_onto_replication_end"] = hist.get("children_skipped_step_onto_replication_end", 0) + len(skipped)
         lst_all = lst
-        lst = [x for x in lst if x[0] not in skipped]
         for vi, job, o in lst:
             hist["distinct_hash_probes"].add(o.get("probe"))
             if job["hashseed"] == "random":
@@ -422,10 +413,6 @@ def judge_program(clock, model, vseed, with_stop=True):
         why, _ = subscription_order(o["full"]["log"])
         if why:
             return ("listeners-not-notified-in-subscription-order", f"child {vi} (PYTHONHASHSEED={job['hashseed']}): {why}", job)
-        end = job["job"]["case"]["cmds"][0][3]
-        fin = o["parts"]["final"]
-        if any(c[0] == "step" for c in job["job"]["case"]["cmds"]) and fin and fin[1] == "STARTED" and fin[2] == end:
-            continue
         if o["digest"] != ref["digest"]:
             part, what = first_diff(ref["parts"], o["parts"])
             return (f"run-differs-between-processes-{part}", f"child {vi} (PYTHONHASHSEED={job['hashseed']}, prior activity "
